@@ -696,7 +696,7 @@ impl<'s> Visit<'s> for Rw<'s> {
             }
             syn::Expr::MethodCall(m) => {
                 let name = m.method.to_string();
-                self.calls.insert(name.clone());
+                self.calls.insert(format!("m:{}", name));
                 if name == "with_context" || name == "context" {
                     // R12: X.with_context(..) -> ctx(X)
                     let (ra, _) = br(m.receiver.span());
@@ -753,8 +753,8 @@ impl<'s> Visit<'s> for Rw<'s> {
                         Some(to) => to.rsplit("::").next().unwrap().to_string(),
                         None => segs.last().cloned().unwrap_or_default(),
                     };
-                    self.calls.insert(name.clone());
-                    if self.threaded.contains(&name) {
+                    self.calls.insert(format!("p:{}", name));
+                    if self.threaded.contains(&name) || self.threaded.contains(&format!("fn:{}", name)) {
                         if let Some(g) = self.ghost_arg() {
                             let (pa, _) = br(c.paren_token.span.close());
                             let t = if c.args.is_empty() { g } else if c.args.trailing_punct() { format!(" {}", g) } else { format!(", {}", g) };
@@ -898,7 +898,7 @@ fn compute_threaded(unit: &Unit, srcs: &HashMap<String, SrcFile>) -> R<BTreeSet<
         threaded.insert(s.clone());
     }
     // calls per extracted fn
-    let mut calls: Vec<(String, BTreeSet<String>)> = vec![];
+    let mut calls: Vec<(String, bool, BTreeSet<String>)> = vec![];
     let empty = BTreeSet::new();
     for f in unit.fns() {
         let src = &srcs[&f.file];
@@ -935,17 +935,30 @@ fn compute_threaded(unit: &Unit, srcs: &HashMap<String, SrcFile>) -> R<BTreeSet<
         for site in &f.closure_sites {
             for w in site.becomes.split(|c: char| !(c.is_alphanumeric() || c == '_')) {
                 if !w.is_empty() {
-                    cs.insert(w.to_string());
+                    cs.insert(format!("p:{}", w));
                 }
             }
         }
-        calls.push((f.out_name(), cs));
+        let is_method = _sig.map(|sg| matches!(sg.inputs.first(), Some(syn::FnArg::Receiver(_)))).unwrap_or(false);
+        calls.push((f.out_name(), is_method, cs));
     }
+    // a method call `.f()` reaches a threaded *method* (or seed) named f; a path call `f()` / `T::f()`
+    // reaches a threaded free function, associated function or method named f
+    let hits = |threaded: &BTreeSet<String>, c: &String| -> bool {
+        if let Some(n) = c.strip_prefix("m:") {
+            threaded.contains(n)
+        } else if let Some(n) = c.strip_prefix("p:") {
+            threaded.contains(n) || threaded.contains(&format!("fn:{}", n))
+        } else {
+            false
+        }
+    };
     loop {
         let mut changed = false;
-        for (name, cs) in &calls {
-            if !threaded.contains(name) && cs.iter().any(|c| threaded.contains(c)) && !g.never.contains(name) {
-                threaded.insert(name.clone());
+        for (name, is_method, cs) in &calls {
+            let key = if *is_method { name.clone() } else { format!("fn:{}", name) };
+            if !threaded.contains(&key) && cs.iter().any(|c| hits(&threaded, c)) && !g.never.contains(name) {
+                threaded.insert(key);
                 changed = true;
             }
         }
@@ -1052,7 +1065,7 @@ fn emit_fn(unit: &Unit, src: &SrcFile, f: &FnSpec, threaded: &BTreeSet<String>) 
     };
 
     let name = f.out_name();
-    let is_threaded = threaded.contains(&name);
+    let is_threaded = threaded.contains(&name) || threaded.contains(&format!("fn:{}", name));
     let ghost_param = unit.ghost.as_ref().map(|g| format!("Tracked({}): Tracked<&mut {}>", g.param, g.ty));
 
     let (lo, hi, header, body_lo);
@@ -1124,9 +1137,14 @@ fn emit_fn(unit: &Unit, src: &SrcFile, f: &FnSpec, threaded: &BTreeSet<String>) 
             let (ba, bb) = br(block.brace_token.span.open());
             let contract = if f.contract.trim().is_empty() { String::new() } else { format!("\n{}\n", f.contract.trim_end()) };
             rw.edit(ba, ba, &contract, "INJ", "contract");
-            let pre = if f.pre.trim().is_empty() { String::new() } else { format!("\n{}\n", f.pre.trim_end()) };
-            rw.edit(bb, bb, &pre, "INJ", "body prologue");
-            rw.visit_block(block);
+            if f.stub {
+                let (_, be) = br(block.span());
+                rw.edit(ba, be, "{ unimplemented!() }", "R16", &format!("callers' view of case-split fn {}: contract only (proved by its copies)", name));
+            } else {
+                let pre = if f.pre.trim().is_empty() { String::new() } else { format!("\n{}\n", f.pre.trim_end()) };
+                rw.edit(bb, bb, &pre, "INJ", "body prologue");
+                rw.visit_block(block);
+            }
             lo = start;
             hi = wb;
             header = String::new();
@@ -1205,23 +1223,24 @@ fn emit_fn(unit: &Unit, src: &SrcFile, f: &FnSpec, threaded: &BTreeSet<String>) 
     if let Some(e) = rw.err.take() {
         refuse!("{} [fn {}]", e, f.path);
     }
+    let check_anchors = !f.stub;
     for l in &f.loops {
-        if !rw.used_loops.contains(&l.index) {
+        if check_anchors && !rw.used_loops.contains(&l.index) {
             refuse!("anchor lost: loop #{} of `{}` not found ({} loops)", l.index, f.path, rw.loop_no);
         }
     }
     for s in &f.selects {
-        if !rw.used_selects.contains(&s.index) {
+        if check_anchors && !rw.used_selects.contains(&s.index) {
             refuse!("anchor lost: select! #{} of `{}` not found", s.index, f.path);
         }
     }
     for s in &f.closure_sites {
-        if !rw.used_closures.contains(&s.index) {
+        if check_anchors && !rw.used_closures.contains(&s.index) {
             refuse!("shape mismatch: closure #{} site of `{}`: no statement matches skeleton `{}`", s.index, f.path, s.skeleton);
         }
     }
     for (i, a) in f.anchors.iter().enumerate() {
-        if !rw.anchor_done.contains(&i) {
+        if check_anchors && !rw.anchor_done.contains(&i) {
             refuse!("anchor lost: statement `{}` (occurrence {}) not found in `{}`", a.pattern, a.occurrence, f.path);
         }
     }
@@ -1500,12 +1519,18 @@ fn run() -> R<()> {
                                 fc.rename = Some(nm.clone());
                                 // the ghost-threading set is keyed by the original name
                                 let mut th = threaded.clone();
-                                if threaded.contains(&f.out_name()) {
+                                if threaded.contains(&f.out_name()) || threaded.contains(&format!("fn:{}", f.out_name())) {
                                     th.insert(nm.clone());
                                 }
                                 let em = emit_fn(&unit, &srcs[&f.file], &fc, &th)?;
                                 outs.push((em, f.file.clone(), f.path.clone(), "fn", nm, Some(arms[live].2.clone())));
                             }
+                            // the callers' view: same signature and contract, body external
+                            let mut fs = f.clone();
+                            fs.stub = true;
+                            fs.attrs = vec!["#[verifier::external_body]".to_string()];
+                            let em = emit_fn(&unit, &srcs[&f.file], &fs, &threaded)?;
+                            outs.push((em, f.file.clone(), f.path.clone(), "fn", f.out_name(), Some("callers' view (contract only; proved by the copies above)".to_string())));
                         }
                     }
                     Part::Fn(f) => outs.push((emit_fn(&unit, &srcs[&f.file], f, &threaded)?, f.file.clone(), f.path.clone(), "fn", f.out_name(), None)),
@@ -1521,7 +1546,9 @@ fn run() -> R<()> {
                     }
                     let mut extra = if split.is_some() { 1 } else { 0 };
                     if let Part::Fn(f) = p {
-                        for a in &f.attrs {
+                        let stub_attr = vec!["#[verifier::external_body]".to_string()];
+                        let attrs = if split.as_deref().map(|l| l.starts_with("callers' view")).unwrap_or(false) { &stub_attr } else { &f.attrs };
+                        for a in attrs {
                             text.push_str(a);
                             text.push('\n');
                             line_src.push(None);
